@@ -5,7 +5,7 @@ import itertools
 from qce_circuit.visualization.visualize_circuit import display_circuit as dc
 from qce_circuit.visualization.visualize_circuit.draw_components import transform_constructor as tc
 from mc import world
-from mc.engine import Family, Res
+from mc.engine import Family, Res, HarnessError
 from mc.interp import build, count_events
 from mc.history import Session
 from mc.props.c05 import AllClassSpace
@@ -33,6 +33,8 @@ class Spy:
 @contextlib.contextmanager
 def spying():
     spy = Spy()
+    if not hasattr(dc, 'plot_circuit_description') or not hasattr(getattr(tc, 'TransformConstructor', None), 'identifier_to_pivot'):
+        raise HarnessError('the drawing seams plot_circuit_description / TransformConstructor.identifier_to_pivot no longer exist; C18 cannot observe positions')
     orig_plot = dc.plot_circuit_description
     orig_pivot = tc.TransformConstructor.identifier_to_pivot
 
@@ -93,8 +95,7 @@ def draw_and_judge(res, c, label, order, labels, compact, cfgname):
             res.fail('C18-side-effect', '%s: drawing (compact=%r, configuration %s) changed what the circuit reports: %r; before %r after %r' % (
                 label, compact, cfgname, diff, {k: before[k] for k in diff}, {k: after[k] for k in diff}))
     if len(spy.descriptions) != 1:
-        res.fail('C18-no-description', '%s: %d descriptions drawn' % (label, len(spy.descriptions)))
-        return None
+        raise HarnessError('%s: plot_circuit did not pass exactly one description through plot_circuit_description (%d seen)' % (label, len(spy.descriptions)))
     d = spy.descriptions[0]
     want_rows = list(order or []) + [q for q in occ if q not in (order or [])]
     if list(d.channel_indices) != want_rows:
